@@ -34,7 +34,9 @@ ASSUMPTIONS = [
     "an IndexError for a negative index beyond -len is accepted as a loud refusal (Python would clamp); "
     "a silently wrong map is not",
     "termini_unknown flags, tidy_start/tidy_end, Span.value and the serialisation dicts are exercised only",
-    "FeatureMap set-theoretic clauses are checked by the spec-level differential (no FeatureMap theorem beyond the model tie)",
+    "FeatureMap set-theoretic clauses: 26 theorems in Props/C08FMap.lean over Model/FMap.lean (tied by the `fmap` / `from_locations` "
+    "correspondence streams) plus the spec-level differential; FeatureMap.__add__/__mul__/__truediv__/get_covering_span/without_gaps "
+    "are neither modelled nor proved",
 ]
 
 
@@ -641,7 +643,22 @@ def _spec_record(pat, a, b):
         align_index=[i for i, c in enumerate(pat) if c == "0"],
         reversed=_gapped_of(pat[::-1]),
         runs=runs,
+        concat=_gapped_of(pat + pat[::-1]),
+        scaled=[_gapped_of("".join(c * k for c in pat)) for k in range(4)],
+        # gap columns standing immediately before residue k (k = number of residues: the trailing run; beyond: 0)
+        gaps_before=[_gaps_before(pat, k) for k in range(pat.count("0") + 2)],
     )
+
+
+def _gaps_before(pat, k):
+    """by the regular expression reading of the string: the gap run that ends where residue k starts"""
+    import re
+
+    pos = [i for i, c in enumerate(pat) if c == "0"]
+    if k > len(pos):
+        return 0
+    end = pos[k] if k < len(pos) else len(pat)
+    return len(re.search("1*$", pat[:end]).group(0))
 
 
 # ---- feature maps ------------------------------------------------------------
@@ -770,10 +787,12 @@ def _fmap_correspondence(ctx, out, rng):
             continue
         rq = dict(m=dict(spans=spans, pl=pl))
         o = None
-        if spans and rng.random() < 0.7:
-            # an index map in the coordinates of m (reverse spans, any order, sometimes poking outside)
+        if rng.random() < 0.7:
+            # an index map in the coordinates of m (reverse spans, any order, sometimes poking outside; one time in five
+            # spans lying ENTIRELY outside [0, len] are kept: the `zlo > zhi` branch of remap_with repaired in b86b50a25;
+            # an empty m is indexed too: the IndexError of `offsets[-1]`)
             L = len(m)
-            ospans = _rand_index(rng, L)
+            ospans = _rand_index(rng, L, outside=rng.random() < 0.2)
             try:
                 o = _fm_real(ospans, L)
                 rq["o"] = dict(spans=ospans, pl=L)
